@@ -1,3 +1,7 @@
+// vchk: offline checkers that need third-party modules (porcupine). It does not depend on gnet;
+// harnesses write histories as JSON lines and read the verdicts back.
+//
+//	vchk queue <histories.jsonl> <out.json>   linearizability of FIFO-queue histories
 package main
 
 import (
@@ -5,11 +9,13 @@ import (
 	"encoding/json"
 	"fmt"
 	"os"
+	"sync"
 	"time"
 
 	"github.com/anishathalye/porcupine"
 )
 
+// Op is one completed queue operation. V: value enqueued / dequeued (-1 = "empty").
 type Op struct {
 	C    int   `json:"c"`
 	Enq  bool  `json:"e"`
@@ -17,13 +23,25 @@ type Op struct {
 	Call int64 `json:"t0"`
 	Ret  int64 `json:"t1"`
 }
+
 type in struct {
 	Enq bool
 	V   int
 }
 
-func main() {
-	m := porcupine.Model{
+type verdict struct {
+	Ok       int      `json:"ok"`
+	Illegal  int      `json:"illegal"`
+	Unknown  int      `json:"unknown"`
+	Ops      int      `json:"ops"`
+	WorstMs  float64  `json:"worst_ms"`
+	IllegalH []string `json:"illegal_histories"`
+	IllegalI []int    `json:"illegal_indexes"`
+	UnknownI []int    `json:"unknown_indexes"`
+}
+
+func queueModel() porcupine.Model {
+	return porcupine.Model{
 		Init: func() interface{} { return []int{} },
 		Step: func(st, i, o interface{}) (bool, interface{}) {
 			s := st.([]int)
@@ -51,35 +69,75 @@ func main() {
 			return true
 		},
 	}
-	f, _ := os.Open(os.Args[1])
-	sc := bufio.NewScanner(f)
-	sc.Buffer(make([]byte, 1<<20), 1<<24)
-	ok, bad, unk := 0, 0, 0
-	t0 := time.Now()
-	var worst time.Duration
-	for sc.Scan() {
-		var ops []Op
-		json.Unmarshal(sc.Bytes(), &ops)
-		var pops []porcupine.Operation
-		for _, o := range ops {
-			pops = append(pops, porcupine.Operation{ClientId: o.C, Input: in{o.Enq, o.V}, Call: o.Call, Output: o.V, Return: o.Ret})
-		}
-		t1 := time.Now()
-		r := porcupine.CheckOperationsTimeout(m, pops, 5*time.Second)
-		if d := time.Since(t1); d > worst {
-			worst = d
-		}
-		switch r {
-		case porcupine.Ok:
-			ok++
-		case porcupine.Illegal:
-			bad++
-			if bad <= 2 {
-				fmt.Println("ILLEGAL:", string(sc.Bytes()))
-			}
-		default:
-			unk++
-		}
+}
+
+func main() {
+	if len(os.Args) < 4 || os.Args[1] != "queue" {
+		fmt.Fprintln(os.Stderr, "usage: vchk queue <histories.jsonl> <out.json>")
+		os.Exit(2)
 	}
-	fmt.Printf("ok=%d illegal=%d unknown=%d in %v (worst %v)\n", ok, bad, unk, time.Since(t0), worst)
+	f, err := os.Open(os.Args[2])
+	if err != nil {
+		fmt.Fprintln(os.Stderr, err)
+		os.Exit(2)
+	}
+	sc := bufio.NewScanner(f)
+	sc.Buffer(make([]byte, 1<<20), 1<<26)
+	var lines []string
+	for sc.Scan() {
+		lines = append(lines, sc.Text())
+	}
+	m := queueModel()
+	var mu sync.Mutex
+	var v verdict
+	var wg sync.WaitGroup
+	jobs := make(chan int, 1024)
+	for w := 0; w < 16; w++ {
+		wg.Add(1)
+		go func() {
+			defer wg.Done()
+			for idx := range jobs {
+				var ops []Op
+				if err := json.Unmarshal([]byte(lines[idx]), &ops); err != nil {
+					continue
+				}
+				var pops []porcupine.Operation
+				for _, o := range ops {
+					pops = append(pops, porcupine.Operation{ClientId: o.C, Input: in{o.Enq, o.V}, Call: o.Call, Output: o.V, Return: o.Ret})
+				}
+				t1 := time.Now()
+				r := porcupine.CheckOperationsTimeout(m, pops, 10*time.Second)
+				d := time.Since(t1)
+				mu.Lock()
+				v.Ops += len(ops)
+				if ms := float64(d.Microseconds()) / 1000; ms > v.WorstMs {
+					v.WorstMs = ms
+				}
+				switch r {
+				case porcupine.Ok:
+					v.Ok++
+				case porcupine.Illegal:
+					v.Illegal++
+					v.IllegalI = append(v.IllegalI, idx)
+					if len(v.IllegalH) < 5 {
+						v.IllegalH = append(v.IllegalH, lines[idx])
+					}
+				default:
+					v.Unknown++
+					v.UnknownI = append(v.UnknownI, idx)
+				}
+				mu.Unlock()
+			}
+		}()
+	}
+	for i := range lines {
+		jobs <- i
+	}
+	close(jobs)
+	wg.Wait()
+	b, _ := json.Marshal(v)
+	if err := os.WriteFile(os.Args[3], b, 0o644); err != nil {
+		fmt.Fprintln(os.Stderr, err)
+		os.Exit(2)
+	}
 }
